@@ -7,6 +7,7 @@ CONSTANTS
   Pats <- Pats_quick
   Coefs <- Coefs_quick
   Shifts <- Shifts_quick
+  Scales <- Scales_quick
 CHECK_DEADLOCK FALSE
 INVARIANT TypeOK
 INVARIANT C06_VolumeIsSum
@@ -19,3 +20,4 @@ INVARIANT C06_MeanIsIntegralOverExtent
 INVARIANT C06_Linear
 INVARIANT C06_TranslationInvariant
 INVARIANT C06_PerComponent
+INVARIANT C06_AfterInplaceScale
